@@ -11,15 +11,20 @@ package main
 // (boundaries taken from the decoded chunk, never predicted), limits, id shape / uniqueness / order.
 
 import (
+	"bufio"
 	"bytes"
 	stdgzip "compress/gzip"
+	"context"
 	"encoding/hex"
 	"encoding/json"
 	"fmt"
 	"io"
 	"math"
+	"os"
+	"os/exec"
 	"reflect"
 	"regexp"
+	"runtime/debug"
 	"strconv"
 	"strings"
 	"time"
@@ -35,7 +40,7 @@ import (
 )
 
 func init() {
-	register(&Prop{ID: "C11", Gen: c11Gen, Run: c11Run})
+	register(&Prop{ID: "C11", Gen: c11Gen, Run: c11Run, Child: c11Child})
 }
 
 var c11LogSet = false
@@ -58,8 +63,137 @@ func c11Run(c *Case) (string, []Fail) {
 		return c11RunIDNatural(c)
 	case 4:
 		return c11RunFormat(c)
+	case 5, 6:
+		return c11RunUnderFakeClock(c)
 	}
 	return "badcase", nil
+}
+
+// ---------------------------------------------------------------------------------------------
+// kinds 5 and 6 run in a child process built with the Go runtime's fake clock (build tag faketime):
+// time.Now() starts at 2009-11-10 23:00:00 UTC and advances only in time.Sleep, by exactly the slept amount.
+// This is an injected, non-decreasing clock under the REAL Generate / NewChunkMaker code: equal readings
+// (the sequence++ branch) and exact advances are scripted, and ids are compared literally with the model.
+
+const c11FakeBase = 1257894000000000000
+
+func c11RunUnderFakeClock(c *Case) (string, []Fail) {
+	if c11IsFakeClock() {
+		return c11RunFakeInner(c)
+	}
+	exe, err := os.Executable()
+	if err != nil {
+		return "nochild:" + err.Error(), nil
+	}
+	ft := exe + ".faketime"
+	if _, err := os.Stat(ft); err != nil {
+		return "nochild:missing-faketime-harness", nil
+	}
+	ctx, cancel := context.WithTimeout(context.Background(), 60*time.Second)
+	defer cancel()
+	cmd := exec.CommandContext(ctx, ft, "C11", "child", c.Line())
+	r, w, err := os.Pipe()
+	if err != nil {
+		return "nochild:pipe", nil
+	}
+	cmd.ExtraFiles = []*os.File{w}
+	if err := cmd.Start(); err != nil {
+		w.Close()
+		r.Close()
+		return "nochild:start", nil
+	}
+	w.Close()
+	data, _ := io.ReadAll(r)
+	r.Close()
+	werr := cmd.Wait()
+	lines := strings.Split(strings.TrimRight(string(data), "\n"), "\n")
+	if len(lines) == 0 || lines[0] == "" {
+		return fmt.Sprintf("childfailed:%v", werr), []Fail{{"c11:panic", fmt.Sprintf("fake-clock child died (%v) on %s", werr, c11Short(c.Line()))}}
+	}
+	var fails []Fail
+	for _, l := range lines[1:] {
+		f := strings.SplitN(l, "\t", 3)
+		if len(f) == 3 && f[0] == "FAIL" {
+			fails = append(fails, Fail{f[1], f[2]})
+		}
+	}
+	return lines[0], fails
+}
+
+// is this process running under the fake clock? (the real wall clock is decades after the fake base)
+func c11IsFakeClock() bool {
+	return time.Now().UnixNano() < c11FakeBase+int64(366*24*time.Hour)
+}
+
+func c11Child(args []string) {
+	out := os.NewFile(3, "result")
+	w := bufio.NewWriter(out)
+	defer func() {
+		w.Flush()
+		out.Close()
+	}()
+	// no garbage collection in the child: the collector's background goroutines sleep on timers, which the fake
+	// clock would have to step through one by one while the script sleeps
+	debug.SetGCPercent(-1)
+	if len(args) < 1 || !c11IsFakeClock() {
+		fmt.Fprintln(w, "nochild:not-built-with-faketime")
+		return
+	}
+	c, err := parseCaseLine(args[0])
+	if err != nil {
+		fmt.Fprintln(w, "badcase")
+		return
+	}
+	res, fails := c11RunFakeInner(c)
+	fmt.Fprintln(w, res)
+	for _, f := range fails {
+		fmt.Fprintf(w, "FAIL\t%s\t%s\n", f.Sig, strings.ReplaceAll(strings.ReplaceAll(f.Desc, "\n", " "), "\t", " "))
+	}
+}
+
+func c11RunFakeInner(c *Case) (string, []Fail) {
+	switch c.Kind {
+	case 5:
+		return c11RunIDClock(c)
+	case 6:
+		return c11RunPacker(c)
+	}
+	return "badcase", nil
+}
+
+// kind 5: the real generator under scripted clock advances; reference = the documented scheme
+func c11RunIDClock(c *Case) (out string, fails []Fail) {
+	if len(c.S) < 1 {
+		return "badcase", nil
+	}
+	suffix := string(c.S[0])
+	base := time.Now().UnixNano()
+	gen := shared.VerifNewChunkIDGenerator(suffix)
+	items := []string{strconv.FormatInt(base, 10)}
+	now, lastT, seq := base, int64(0), int32(0)
+	var prev string
+	for i, d := range c.Z {
+		if d > 0 {
+			time.Sleep(time.Duration(d))
+			now += d
+		}
+		id := gen.Generate()
+		items = append(items, id)
+		// the scheme: a later reading restarts the sequence, the same reading increments it
+		if now > lastT {
+			lastT, seq = now, 0
+		} else {
+			seq++
+		}
+		if want := fmt.Sprintf("%019d-%08d%s", now, seq, suffix); id != want && len(fails) < 4 {
+			fails = append(fails, Fail{"c11:idgen-scheme", fmt.Sprintf("id %d under clock advances %v is %q, the scheme gives %q", i, c.Z[:i+1], id, want)})
+		}
+		if i > 0 && !(prev < id) && seq < 100000000 && len(fails) < 4 {
+			fails = append(fails, Fail{"c11:id-order", fmt.Sprintf("id %d %q does not sort after %q (clock advances %v)", i, id, prev, c.Z[:i+1])})
+		}
+		prev = id
+	}
+	return "clk:" + strings.Join(items, ";"), fails
 }
 
 // ---------------------------------------------------------------------------------------------
@@ -246,7 +380,19 @@ func c11RunPacker(c *Case) (out string, fails []Fail) {
 	var ops []opT
 	var streams [][]byte
 	next := 1
-	for i, z := range c.Z[4:] {
+	zops := c.Z[4:]
+	var delays []int64
+	if c.Kind == 6 {
+		// (clock advance, op) pairs
+		var only []int64
+		for i := 0; i+1 < len(zops); i += 2 {
+			delays = append(delays, zops[i])
+			only = append(only, zops[i+1])
+		}
+		zops = only
+		frozen = 0
+	}
+	for i, z := range zops {
 		if c.Kind == 0 {
 			if z == 0 {
 				ops = append(ops, opT{flush: true})
@@ -309,7 +455,10 @@ func c11RunPacker(c *Case) (out string, fails []Fail) {
 				p = r
 			}
 		}()
-		for _, o := range ops {
+		for i, o := range ops {
+			if i < len(delays) && delays[i] > 0 {
+				time.Sleep(time.Duration(delays[i]))
+			}
 			if o.flush {
 				results = append(results, maker.FlushBuffer())
 			} else {
@@ -348,6 +497,10 @@ func c11RunPacker(c *Case) (out string, fails []Fail) {
 	// ---- canonical output
 	var sb strings.Builder
 	sb.WriteString("ok:")
+	if c.Kind == 6 {
+		sb.Reset()
+		fmt.Fprintf(&sb, "fk:%d;", t0)
+	}
 	k := 0
 	for i, ch := range results {
 		if i > 0 {
@@ -393,8 +546,16 @@ func c11RunPacker(c *Case) (out string, fails []Fail) {
 			flags += "p"
 		}
 		payload := strconv.Itoa(len(d.payload))
+		if strings.ContainsAny(ch.ID, ";|\n") {
+			ch = &base.LogChunk{ID: "BAD" + hex.EncodeToString([]byte(ch.ID)), Data: ch.Data}
+		}
 		if c.Kind == 0 {
 			payload = hex.EncodeToString(d.payload)
+		}
+		if c.Kind == 6 {
+			fmt.Fprintf(&sb, "%s.%s.%s.%s.%s.%s", ch.ID, map[bool]string{true: "1", false: "0"}[idok], size, flags,
+				hex.EncodeToString([]byte(d.tag)), payload)
+			continue
 		}
 		fmt.Fprintf(&sb, "%d.%s.%s.%s.%s.%s.%s", rank, seq, map[bool]string{true: "1", false: "0"}[idok], size, flags,
 			hex.EncodeToString([]byte(d.tag)), payload)
@@ -1001,6 +1162,70 @@ func c11Gen(g *Gen) {
 	c11GenWrapperBoundaries(g)
 	c11GenDatadogReal(g)
 	c11GenIDs(g)
+	c11GenFakeClock(g)
+}
+
+// kinds 5 and 6: scripted clock advances under the runtime's fake clock (one child process per case)
+func c11GenFakeClock(g *Gen) {
+	r := g.R
+	// every advance script over {0, 1} up to length n: which readings are equal is what decides the sequence
+	var rec func(prefix []int64, maxLen int, alphabet []int64)
+	rec = func(prefix []int64, maxLen int, alphabet []int64) {
+		g.Count("fakeclock:idgen-enum")
+		g.Case(5, [][]byte{[]byte(".ff")}, prefix)
+		if len(prefix) == maxLen {
+			return
+		}
+		for _, a := range alphabet {
+			rec(append(append([]int64{}, prefix...), a), maxLen, alphabet)
+		}
+	}
+	rec(nil, g.Pick(5, 8), []int64{0, 1})
+	rec(nil, g.Pick(3, 5), []int64{0, 2, 1000})
+	for i := 0; i < g.Pick(60, 1500); i++ {
+		n := r.PickInt([]int{1, 2, 5, 10, 30, 100})
+		var z []int64
+		for j := 0; j < n; j++ {
+			z = append(z, int64(r.PickInt([]int{0, 0, 0, 0, 1, 1, 2, 999, 100000})))
+		}
+		g.Count("fakeclock:idgen-random")
+		g.Case(5, [][]byte{[]byte(r.PickStr([]string{".ff", ".dd", "", ".x"}))}, z)
+	}
+	for i := 0; i < g.Pick(150, 4000); i++ {
+		target := r.Intn(4)
+		base := r.PickInt([]int{1, 2, 3, 10, 33})
+		per := r.Range(1, 4)
+		maxb := per*base + r.Range(-2, 2)
+		if target >= 3 {
+			maxb += per + 1
+		}
+		if r.Chance(1, 6) || maxb < 0 {
+			maxb = 0
+		}
+		maxr := r.PickInt([]int{0, 0, 1, 2, 3})
+		z := []int64{int64(target), int64(maxr), int64(maxb), 0}
+		for j := r.PickInt([]int{1, 3, 8, 20, 40}); j > 0; j-- {
+			d := int64(r.PickInt([]int{0, 0, 0, 0, 1, 1, 7, 50000}))
+			if r.Chance(1, 7) {
+				z = append(z, d, -1)
+				continue
+			}
+			n := base + r.PickInt([]int{-1, 0, 0, 1})
+			if r.Chance(1, 10) {
+				n = maxb + r.Range(-1, 2)
+			}
+			lo := 0
+			if target == 0 || target >= 3 {
+				lo = 1
+			}
+			if n < lo {
+				n = lo
+			}
+			z = append(z, d, int64(n))
+		}
+		g.Count(fmt.Sprintf("fakeclock:packer:target%d", target))
+		g.Case(6, [][]byte{c11Tag(r)}, z)
+	}
 }
 
 // lengths at which the msgpack wrapper changes its encoding: tag (fixstr/str8/str16/str32), number of
